@@ -2886,6 +2886,13 @@ func (s *Store) fsmRestore(rc io.ReadCloser) (retErr error) {
 	if err := fsutil.RemoveFile(s.cleanSnapshotPath); err != nil {
 		return fmt.Errorf("failed to remove clean snapshot file: %w", err)
 	}
+
+	// The same goes for WAL files still staged from an earlier snapshot of this node
+	// whose persist did not take place: they belong to the database that is being
+	// replaced, and must not be shipped with the next incremental snapshot.
+	if err := os.RemoveAll(s.walStagingDir); err != nil {
+		return fmt.Errorf("failed to remove WAL staging directory: %w", err)
+	}
 	if err := s.db.Swap(tmpPath, s.dbConf.FKConstraints, true); err != nil {
 		return fmt.Errorf("error swapping database file: %v", err)
 	}
